@@ -78,5 +78,5 @@ Qed.
 Lemma gen_hook_prebuild : forall enq_err : bool,
   g_hook_remove_metadata = ([1], Fall) /\ g_hook_remove_metadata_body = ([1; 2], Fall) /\
   g_hook_remove_staging = ([1; 2], Fall) /\ g_hook_remove_staging_body = ([1], Fall) /\
-  g_hook_proposalq_body enq_err = (if enq_err then ([1], Cont) else ([1; 2], Fall)).
+  g_hook_proposalq_body enq_err = (if enq_err then ([1], Fall) else ([1; 2], Fall)).
 Proof. intros [|]; repeat split; reflexivity. Qed.
